@@ -449,6 +449,16 @@ def check(ctx, rep):
     # no panic=abort style constructs / no explicit panics in public macros
     # narrowing casts: C02-R3
     V.rule_units_and_guard(ctx, rep, units=False)
+    # "invalid values are reported as errors": an empty packed list never becomes a line (the other invalid input, a Duration
+    # that does not fit, is the guard rule above)
+    try:
+        from . import fmtout as F_
+        from . import client as K_
+        fm_ = F_.FormatterModel(ctx, rep)
+        if fm_.ok:
+            K_.rule_nonempty(fm_, DropOnly(rep, ('rejects-only-empty-lists',)), 'R7e')
+    except Exception as e:
+        rep.unknown('R7e', 'nonempty', '', 'rule code could not follow this tree (%s)' % e)
 
 
 class _InWriter:
